@@ -319,6 +319,15 @@ func cmdCheck(args []string) int {
 				perObl = append(perObl, entry)
 				continue
 			}
+			if o.Solver != "sat" && strings.Count(o.Detail, "(error ") >= 3 {
+				// every back end rejected the query: the generator produced an ill-formed
+				// condition (engine malfunction), which says nothing about the property
+				fmt.Printf("BROKEN property=%s obligation=%s: all solvers rejected the query\n%s\n", id, o.Name, lastBytes(o.Detail, 600))
+				broken++
+				entry["status"] = "broken-query"
+				perObl = append(perObl, entry)
+				continue
+			}
 			if kf := matchKnown(known, id, o.Name, ""); kf != nil && kf.re == nil {
 				fmt.Printf("KNOWN-FINDING: property=%s %s (obligation %s)\n", id, kf.desc, o.Name)
 				entry["status"] = "known-finding"
